@@ -10,7 +10,7 @@ THEOREMS = {
     'C06': ['C06.C06_answered', 'C06.C06_no_serverbug', 'C06.C06_tagged', 'C18.C06_modutf7_total'],
     'C07': ['C07.C07_wellformed', 'C18.C07_quoted_escape', 'C18.C07_build_safe', 'C18.C18_encode_ascii'],
     'C08': ['C08.C08_confined_default', 'C08.C08_confined_fs', 'C08.C08_escape_as_found'],
-    'C09': ['C05.C09_sound', 'C05.C09_no_reauth', 'C05.C09_logindisabled', 'C05.C09_failed_keeps'],
+    'C09': ['C05.C09_sound', 'C05.C09_no_reauth', 'C05.C09_logindisabled', 'C05.C09_failed_keeps', 'C05.C09_advertised_enforced', 'C05.C09_login_accepted_was_offered'],
     'C10': ['C10.C10_seqset', 'C10.C10_store_refines', 'C10.C10_expunge_refines', 'C10.C10_append_refines', 'C10.C10_permitted',
             'C10.C10_copy_refines', 'C10.C10_copy_uids', 'C10.C10_move_refines', 'C10.C10_server_copyMove', 'C10.C10_server_copy_spec', 'C10.C10_server_expunge'],
     'C11': ['C11.C11_star_all', 'C11.C11_pct', 'C11.C11_literal', 'C11.C11_list', 'C11.C11_inbox_guard',
